@@ -758,21 +758,30 @@ def _py_dispatch(P, nm):
         raise AnalysisError(f"anchor vanished: {PY}::{CLS}.{nm}")
     table = {}
 
-    def chain(node, var):
-        while isinstance(node, ast.If):
-            t = node.test
-            if isinstance(t, ast.Compare) and core.src(t.left) == var and isinstance(t.ops[0], ast.Eq) and isinstance(t.comparators[0], ast.Constant):
-                yield t.comparators[0].value, node.body
-            node = node.orelse[0] if len(node.orelse) == 1 else None
+    def cases(stmts, var):
+        """(value, body) of every test `var == literal` in a statement list: elif chains and sequences of
+        `if ...: return` statements alike (each arm returns, so a following `if` is the next case)"""
+        for st in stmts:
+            node = st
+            while isinstance(node, ast.If):
+                t = node.test
+                if isinstance(t, ast.Compare) and core.src(t.left) == var and isinstance(t.ops[0], ast.Eq) and isinstance(t.comparators[0], ast.Constant):
+                    yield t.comparators[0].value, node.body
+                if len(node.orelse) == 1 and isinstance(node.orelse[0], ast.If):
+                    node = node.orelse[0]
+                else:
+                    yield from cases(node.orelse, var)
+                    node = None
 
-    top = [s for s in fn.body if isinstance(s, ast.If)][0]
-    for i, body in chain(top, "i"):
+    pi_ = fn.args.args[1].arg if len(fn.args.args) > 1 else "i"
+    pci = fn.args.args[2].arg if len(fn.args.args) > 2 else "ci"
+    for i, body in cases(fn.body, pi_):
         if isinstance(body[0], ast.Return):
-            table[(i,)] = body[0].value.func.attr
-        elif isinstance(body[0], ast.If):
-            for ci, b2 in chain(body[0], "ci"):
+            table.setdefault((i,), body[0].value.func.attr)
+        else:
+            for ci, b2 in cases(body, pci):
                 if isinstance(b2[0], ast.Return):
-                    table[(i, ci)] = b2[0].value.func.attr
+                    table.setdefault((i, ci), b2[0].value.func.attr)
     return table
 
 
@@ -908,7 +917,7 @@ def _r11g(rep, tu, P):
             calls = [c for c in ast.walk(aug.value) if isinstance(c, ast.Call) and isinstance(c.func, ast.Name)]
             ks_ = sorted({core.src(c.args[0]) for c in calls})
             callees = sorted(ren.get(c.func.id, c.func.id) for c in calls)
-            py_cases.append((frozenset(py_atoms(n.test)), ks_, callees, "+=" if isinstance(aug.op, ast.Add) else "?", "indices == ci" in rsrc(aug.value)))
+            py_cases.append((frozenset(py_atoms(n.test)), ks_, callees, "+=" if isinstance(aug.op, ast.Add) else "?", ("indices == ci" in rsrc(aug.value) or "ci == indices" in rsrc(aug.value))))
     if len(c_cases) != 5 or len(py_cases) != 5:
         raise AnalysisError(f"case split: found {len(c_cases)} C cases and {len(py_cases)} Python cases, expected 5 and 5")
     for k, (cc, pc) in enumerate(zip(c_cases, py_cases)):
